@@ -158,6 +158,68 @@ CHECKS = {
         "PPO/IPPO bounds only in evaluation mode (statement); partly infinite Box bounds and non-ndarray mask forms are information only.",
         "DESIGN.md#c14",
     ),
+    "C03": (
+        True,
+        "exploration",
+        "per-edge monitor on real clone-and-mutate steps: forward/finite/shape checks, bound model per module family, rebuild-from-init_dict + strict state-dict load, advertised-effect check; exhaustive BFS of small-bound architecture graphs + seeded long walks",
+        "For MLP, SimBa, LSTM, CNN, ResNet the architecture graph under shrunken bounds is explored exhaustively by really "
+        "calling the advertised methods on clones (sub-space exhaustive, states/edges reported); all modules and all "
+        "networks (Q, Rainbow Q, continuous Q, value, deterministic and stochastic actor) are driven by seeded walks with "
+        "default bounds over vector/image/dict/tuple spaces; every edge is checked.",
+        "Verdict on clone-and-mutate chains (pattern A, what HPO does); mutations repeated on one object without cloning are information only.",
+        "DESIGN.md#c03",
+    ),
+    "C04": (
+        True,
+        "exploration",
+        "snapshot of named parameters/buffers before each mutation + common-index-box comparison after; bitwise output comparison for no-op mutations and clones; Mutations.reinit_from_mutated differential",
+        "Rides on the C03 walks with randomised weights and norm statistics (so fresh initialisation cannot masquerade as "
+        "preservation): every parameter present before and after must agree on the common index box, an unchanged "
+        "init_dict must give identical outputs, clone() and re-created shared networks must reproduce outputs.",
+        "Same chain semantics as C03; eval-mode outputs compared bitwise within one process.",
+        "DESIGN.md#c04",
+    ),
+    "C16": (
+        True,
+        "exploration",
+        "boundary wrappers on EvolvableDistribution/StochasticActor/PPO.evaluate_actions with logits captured during the observed call + float64 numpy oracle (no torch.distributions); real PPO.learn / IPPO.learn re-evaluation observed",
+        "Discrete, MultiDiscrete, MultiBinary, Box (incl. shape (1,)), squash on/off, masks incl. all-but-one, log-std "
+        "initialisations, random weights; returned action support, log-probability, entropy, masked probability and the "
+        "re-evaluation of stored actions (actor, evaluate_actions, inside learn) are recomputed independently.",
+        "Squashed entropy has no closed form (finiteness only); squashed log-prob checked in tanh coordinates.",
+        "DESIGN.md#c16",
+    ),
+    "C18": (
+        True,
+        "exploration",
+        "sys.monitoring PY_RETURN tap on RainbowDQN._dqn_loss (locals copied from the frame) + float64 per-atom C51 projection reference + metamorphic no-leak pairs; instance taps on the noisy networks' forward",
+        "Atoms 2-51, several supports incl. non-representable v_max, rewards inside/outside/on atoms, done 0/1, gamma, n-step "
+        "1-3, combined targets: mass, mean, projection, non-negativity, row isolation, element-wise loss and returned "
+        "priorities are checked on every tapped loss evaluation.",
+        "Batch size equals agent.batch_size (implementation requirement); a lost local makes the run inconclusive.",
+        "DESIGN.md#c18",
+    ),
+    "C19": (
+        True,
+        "exploration",
+        "postcondition wrapper on get_action accumulating the float64 Gram matrix from independently recomputed gradient features; (re)initialisation events observed on init_params/_reinit_bandit_grads; identity check of exp_layer",
+        "NeuralUCB and NeuralTS over context dims, arms, lambda, gamma, masks, sequences of 5-200 decisions interleaved with "
+        "learn steps, every mutation kind, clones and checkpoint round trips: sigma_inv @ G == I within a conditioned "
+        "tolerance, symmetry, positive definiteness, non-negative bonuses, shape and layer identity after every decision.",
+        "Float32 drift tolerance scaled with cond(G); features recomputed on a deep copy taken before the call.",
+        "DESIGN.md#c19",
+    ),
+    "C20": (
+        True,
+        "exploration",
+        "end-to-end runs of the six real train_* loops on instrumented counting environments with passive wrappers on get_action/learn/test/clone/select/mutation/save_checkpoint; per-generation offline check of the recorded event log",
+        "Every loop x algorithm x {single, vectorised with num_envs <,=,> learn_step} x memory kind x {HPO on/off} x "
+        "{checkpoint on/off} with tiny budgets crossing several generations: crashes, population size/indices, step "
+        "accounting against environment counters, budget stop generation, fitness growth, elitism carry-over and "
+        "checkpoint coverage are checked.",
+        "swap_channels / accelerator / wandb paths not driven; combinations a loop's docstring excludes are probes only.",
+        "DESIGN.md#c20",
+    ),
 }
 
 NOT_YET = "check not built yet in this round (framework under construction); see DESIGN.md section for the plan"
